@@ -540,6 +540,7 @@ void runHugeRing(rt::Rng rng) {
     gHist = d;
     rt::crumb("%s", d);
     using RB = tulz::RingBuffer<unsigned char, ow>;
+    if (rt::memAvailableBytes() < 3 * cap + (2ULL << 30)) { ++C.hugeSkipped; return; }   // address space only, but the allocator must grant it
     std::deque<unsigned char> m;
     auto same = [&](const RB &r, size_t wantCap, const char *what) {
         if (gCaseFailed) return;
